@@ -59,6 +59,27 @@ def run(ck):
 
 
 # ------------------------------------------------------------------ R1
+def direct_did_enable(F, b, deliver):
+    """`Filtered::did_enable` written out at its call site: on every path of `b`, FILTERING.with runs a closure that, on
+    every path, calls FilterState::did_enable(self.id(), <closure containing the delivery>)."""
+    withs = [(bb, t) for bb, t in b.calls() if t["callee"].get("method") == "with" and "LocalKey" in t["callee"].get("path", "")]
+    if len(withs) != 1 or not b.postdominates(withs[0][0], 0):
+        return False
+    for c in F.closures_of(b):
+        des = [(bb, t) for bb, t in c.calls() if t["callee"].get("path") == SF + "FilterState::did_enable"]
+        if len(des) != 1 or not c.postdominates(des[0][0], 0):
+            continue
+        t = des[0][1]
+        ido = c.origin(t["argv"][1])
+        id_ok = ido[0] == "call" and ido[2]["callee"].get("method") == "id" and "Filtered" in ido[2]["callee"].get("path", "")
+        fo = c.origin(t["argv"][2])
+        passed = (fo[0] == "agg" and fo[1]["agg"].get("closure") == deliver.path) or \
+                 (fo[0] == "arg" and deliver.path.startswith(b.path + "::{closure") and not deliver.path.startswith(c.path + "::"))
+        if id_ok and passed:
+            return True
+    return False
+
+
 def r1(ck, F):
     gate = {
         "on_new_span": "did_enable", "on_event": "did_enable",
@@ -83,13 +104,15 @@ def r1(ck, F):
             x, bb, t = inner[0]
             if how == "did_enable":
                 de = [(bb2, t2) for bb2, t2 in b.calls() if t2["callee"].get("path") == SF + "Filtered::<S, F, C>::did_enable"]
-                if len(de) != 1 or x is b:
+                if x is b:
                     problems.append("the wrapped layer is not called from inside the did_enable closure")
-                else:
+                elif len(de) == 1:
                     # closure passed to did_enable is the one containing the call; did_enable is on every path
                     o = b.origin(de[0][1]["argv"][1])
                     if not (o[0] == "agg" and o[1]["agg"].get("closure") == x.path and b.postdominates(de[0][0], 0)):
                         problems.append("did_enable is not called with the delivering closure on every path")
+                elif not direct_did_enable(F, b, x):
+                    problems.append("the wrapped layer is not called from inside the did_enable closure")
             elif how == "if_enabled_for":
                 g, paths = guards_of(x, bb)
                 if not any(txt.startswith("discr(if_enabled_for(") and v == 1 for txt, v in g):
@@ -429,6 +452,10 @@ def summaries(ck, R):
         if ck.anchor("C07.R5s", "Filtered::" + m, b):
             de = [bb for bb, t in b.calls() if t["callee"].get("path") == SF + "Filtered::<S, F, C>::did_enable"]
             ok = len(de) == 1 and b.postdominates(de[0], 0)
+            if not de:
+                # the helper written out in place: FILTERING.with(|filtering| filtering.did_enable(self.id(), || deliver))
+                deliver = [c for c in R.closures_of(b) if any(t["callee"].get("method") == m and t["callee"].get("trait", "").endswith("Subscribe") for bb, t in c.calls())]
+                ok = len(deliver) == 1 and direct_did_enable(R, b, deliver[0])
             S["filtered_%s_consumes" % m] = shape("Filtered::%s consumes its bit through did_enable on every path" % m, ok, "", b)
     de = R.body(SF + "Filtered::<S, F, C>::did_enable")
     if de:
